@@ -472,6 +472,45 @@ pub fn gen_c11(sh: &mut Shards, o: &Opts) -> serde_json::Value {
             sh.emit(&s);
             n += 1;
             pixels += (w * h) as u64;
+            // ECHO image of the same size: [p, f(p), q, f(q), ...] - every second pixel's INPUT is its left neighbour's OUTPUT.
+            // An in-place loop that compares a pixel with what it has just written next to it ("same as the previous pixel:
+            // copy the result") treats the echo as already converted; random neighbours never coincide like that.
+            // (only where the echoed value is inside the conversion's ordinary domain: no NaN-producing inputs - a NaN's payload
+            // bits are not part of any property)
+            if w * h >= 2 && call != "XybToRgb" {
+                let mut echo: Px = Vec::with_capacity(w * h);
+                for p in &src {
+                    if echo.len() + 2 > w * h {
+                        break;
+                    }
+                    echo.push(*p);
+                    let q = float_conv(call, &c, &[*p], 1, 1).map(|r| r.0[0]).unwrap_or(*p);
+                    let ok = if matches!(call, "RgbToXyb" | "RgbToLin" | "LinToRgb") { q.iter().all(|x| (0.0..=1.0).contains(x)) } else { q.iter().all(|x| x.is_finite()) };
+                    echo.push(if ok { q } else { *p });
+                }
+                while echo.len() < w * h {
+                    echo.push(src[0]);
+                }
+                let mut s = String::new();
+                let _ = write!(s, "\"ev\":\"pw\",\"echo\":1,\"src\":\"float\",\"dst\":\"float\",\"call\":\"{call}\",\"cfg\":{},\"w\":{w},\"h\":{h}", c.json());
+                match float_conv(call, &c, &echo, w, h) {
+                    Err(e) => {
+                        let _ = write!(s, ",\"res\":\"{e}\"");
+                    }
+                    Ok((out, wo, ho)) => {
+                        let _ = write!(s, ",\"res\":\"ok\",\"wo\":{wo},\"ho\":{ho}");
+                        bits(&mut s, "out", &out);
+                        if let Ok((again, _, _)) = float_conv(call, &c, &echo, w, h) {
+                            bits(&mut s, "again", &again);
+                        }
+                        let one: Px = echo.iter().map(|p| float_conv(call, &c, &[*p], 1, 1).map(|r| r.0[0]).unwrap_or([f32::NAN; 3])).collect();
+                        bits(&mut s, "one", &one);
+                    }
+                }
+                sh.emit(&s);
+                n += 1;
+                pixels += (w * h) as u64;
+            }
         }
     }
     // ROUNDING BOUNDARIES: pixels whose scaled luma / chroma lies within a few f32 steps of a code boundary k + 0.5, walked
